@@ -9,12 +9,14 @@ From Attrs Require Import Base C13.Model.
 
 (** [filters.include( *what )] / [exclude( *what )] after [_split_what]: exact
     classes, names, attribute-ids; a hand-written predicate given as a table over
-    (field name, exact class of the value). *)
+    (field name, exact class of the value); a faulty predicate that raises [e] on
+    the table's entries and otherwise behaves like [rest]. *)
 Inductive filt :=
 | FNo
 | FInc (ts : list tytag) (ns : list string) (ids : list nat)
 | FExc (ts : list tytag) (ns : list string) (ids : list nat)
-| FPred (tbl : list (string * tytag)) (positive : bool).
+| FPred (tbl : list (string * tytag)) (positive : bool)
+| FRaise (tbl : list (string * tytag)) (e : exc) (rest : filt).
 
 Definition what_match (ts : list tytag) (ns : list string) (ids : list nat)
     (f : field) (v : val) : bool :=
@@ -22,26 +24,32 @@ Definition what_match (ts : list tytag) (ns : list string) (ids : list nat)
   || existsb (String.eqb (fst f)) ns          (* attribute.name in names *)
   || existsb (Nat.eqb (snd f)) ids.           (* attribute in attrs *)
 
-Definition filter_of (f : filt) : option filter_fn :=
+Definition in_tbl (tbl : list (string * tytag)) (a : field) (v : val) : bool :=
+  existsb (fun e => String.eqb (fst e) (fst a) && tytag_eqb (snd e) (type_of v)) tbl.
+
+Fixpoint filter_of (f : filt) : option filter_fn :=
   match f with
   | FNo => None
-  | FInc ts ns ids => Some (what_match ts ns ids)
-  | FExc ts ns ids => Some (fun a v => negb (what_match ts ns ids a v))
-  | FPred tbl positive =>
-      Some (fun a v =>
-              Bool.eqb positive
-                (existsb (fun e => String.eqb (fst e) (fst a) && tytag_eqb (snd e) (type_of v)) tbl))
+  | FInc ts ns ids => Some (fun a v => Ok (what_match ts ns ids a v))
+  | FExc ts ns ids => Some (fun a v => Ok (negb (what_match ts ns ids a v)))
+  | FPred tbl positive => Some (fun a v => Ok (Bool.eqb positive (in_tbl tbl a v)))
+  | FRaise tbl e rest =>
+      Some (fun a v => if in_tbl tbl a v then Err e else passes (filter_of rest) a v)
   end.
 
 (** Serializers used by the harness: none; one that wraps every value; one that
-    wraps scalars and strings only and returns everything else unchanged. *)
-Inductive sermode := SNo | SAll | SLeaf.
+    wraps scalars and strings only and returns everything else unchanged; a faulty
+    one that raises [e] for values of exact class [ty] and otherwise behaves like
+    [base] (returning its argument when [base] is [SNo]). *)
+Inductive sermode := SNo | SAll | SLeaf | SFail (ty : tytag) (e : exc) (base : sermode).
 
-Definition ser_of (m : sermode) : option ser_fn :=
+Fixpoint ser_of (m : sermode) : option ser_fn :=
   match m with
   | SNo => None
-  | SAll => Some (fun w v => Some (VW w v))
-  | SLeaf => Some (fun w v => if is_leaf v then Some (VW w v) else None)
+  | SAll => Some (fun w v => Ok (Some (VW w v)))
+  | SLeaf => Some (fun w v => Ok (if is_leaf v then Some (VW w v) else None))
+  | SFail ty e base =>
+      Some (fun w v => if tytag_eqb (type_of v) ty then Err e else ser_apply (ser_of base) w v)
   end.
 
 (** ** Comparison of an observed result with a predicted one: exact classes
@@ -82,7 +90,19 @@ Fixpoint val_eqb (a b : val) {struct a} : bool :=
   | _, _ => false                              (* VAlien equals nothing *)
   end.
 
-Definition res_eqb (a b : option val) : bool := option_eqb val_eqb a b.
+Definition exc_eqb (a b : exc) : bool :=
+  match a, b with
+  | ETypeError, ETypeError => true
+  | EUser x, EUser y => x =? y
+  | _, _ => false
+  end.
+
+Definition res_eqb (a b : res val) : bool :=
+  match a, b with
+  | Ok x, Ok y => val_eqb x y
+  | Err x, Err y => exc_eqb x y
+  | _, _ => false
+  end.
 
 (** ** Cases *)
 Inductive fn := FAsdict | FAstuple | FNgAsdict | FNgAstuple | FRound.
@@ -97,7 +117,7 @@ Record case := {
   c_tf : tfk;
   c_ser : sermode;
   c_inst : val;
-  c_seen : option val                     (* [None] = TypeError *)
+  c_seen : res val                        (* a value, or the class of the exception that came out *)
 }.
 
 Definition env_of (c : case) : env :=
@@ -105,7 +125,7 @@ Definition env_of (c : case) : env :=
      cls_hashable := fun k => snd (nth k (c_classes c) ([], false));
      nt_arity := fun n => nth n (c_nts c) 0 |}.
 
-Definition run_faithful (c : case) : option val :=
+Definition run_faithful (c : case) : res val :=
   let E := env_of c in
   let flt := filter_of (c_filter c) in
   let ser := ser_of (c_ser c) in
@@ -114,10 +134,10 @@ Definition run_faithful (c : case) : option val :=
   | FAstuple => astuple E (c_recurse c) (c_retain c) flt (c_tf c) (c_inst c)
   | FNgAsdict => ng_asdict E (c_recurse c) flt ser (c_inst c)
   | FNgAstuple => ng_astuple E (c_recurse c) flt (c_inst c)
-  | FRound => match c_inst c with VI k vs => roundtrip E k vs | _ => None end
+  | FRound => match c_inst c with VI k vs => roundtrip E k vs | _ => Err ETypeError end
   end.
 
-Definition run_ideal (c : case) : option val :=
+Definition run_ideal (c : case) : res val :=
   let E := env_of c in
   let flt := filter_of (c_filter c) in
   let ser := ser_of (c_ser c) in
@@ -126,10 +146,10 @@ Definition run_ideal (c : case) : option val :=
   | FAstuple => astuple_spec E (c_recurse c) (c_retain c) flt (c_tf c) (c_inst c)
   | FNgAsdict => asdict_spec E (c_recurse c) true flt DkD ser (c_inst c)
   | FNgAstuple => astuple_spec E (c_recurse c) true flt TfTuple (c_inst c)
-  | FRound => match c_inst c with VI k vs => roundtrip E k vs | _ => None end
+  | FRound => match c_inst c with VI k vs => roundtrip E k vs | _ => Err ETypeError end
   end.
 
-Definition model_of (c : case) : option val * option val := (run_faithful c, run_ideal c).
+Definition model_of (c : case) : res val * res val := (run_faithful c, run_ideal c).
 
 (** The observation must equal the code-shaped model and the reference
     specification (the two are proved equal on well-formed inputs:
